@@ -31,7 +31,8 @@ def cross_cases(draw, tier):
     rho = max(T["r"])
     regime = draw(st.sampled_from(["fixed", "growth"]))
     case = {"T": T, "regime": regime, "y0seed": draw(st.integers(0, 10 ** 6)), "cache": draw(st.booleans()),
-            "vld": draw(st.booleans()), "vseed": draw(gen.seeds), "extra": draw(st.integers(0, 2))}
+            "vld": draw(st.booleans()), "vseed": draw(gen.seeds), "extra": draw(st.integers(0, 2)),
+            "scale10": draw(st.sampled_from([0, 0, 0, 6, -6, 30, -30, 100, -100]))}
     if regime == "growth":
         case["dr_min"] = draw(st.integers(1, 2))
         case["dr_max"] = draw(st.integers(case["dr_min"], 2))
@@ -49,9 +50,11 @@ def run_cross(ctx, F, Y0, *, nswp, dr_min, dr_max, cache, I_vld=None, y_vld=None
 def prop_cross(case, ctx):
     Tspec = case["T"]
     T = gen.build_tt(Tspec)
+    T[0] = T[0] * 10.0 ** case.get("scale10", 0)
     n = Tspec["n"]
     d = len(n)
     F = dense(T)
+    ctx.label(f"scale=1e{case.get('scale10', 0)}")
     nrm = fro(F)
     rho = max(Tspec["r"])
     ctx.label(*gen.spec_labels(Tspec), "regime:" + case["regime"], "cache" if case["cache"] else "nocache", "vld" if case["vld"] else "novld")
@@ -119,6 +122,20 @@ def prop_cross(case, ctx):
     Yprev, iprev, _ = run_cross(ctx, F, Y0, nswp=nswp - 1, dr_min=dr_min, dr_max=dr_max, cache=None)
     ctx.check(len(Yprev) == len(Yold_last) and all(np.array_equal(a, b) for a, b in zip(Yprev, Yold_last)),
               "Yold handed to the callback differs from an independent run with nswp-1 sweeps")
+
+    # (c') the same info identities on a deliberately poor approximation (rank-1 start, no growth, one sweep): the reported
+    # validation error must be the relative error of the returned tensor also when it is far from converged
+    Y0p = ctx.lib(teneva.rand, n, 1, seed=case["y0seed"])
+    infq = {}
+    Yq = ctx.lib(teneva.cross, Objective(F), Y0p, nswp=1, dr_min=0, dr_max=0, info=infq, I_vld=I_vld, y_vld=y_vld)
+    ctx.check(oracle.wellformed(Yq, n) is None, "cross (rank-1, one sweep): malformed result")
+    ctx.check(abs(infq["r"] - oracle.erank_ref(Yq)) <= 1e-9 * oracle.erank_ref(Yq), "info['r'] is not the effective rank of the returned tensor (poor run)")
+    if I_vld is not None:
+        vals = dense(Yq)[tuple(I_vld.T)]
+        tv = (K_of(Yq) * EPS * dense_abs(Yq))[tuple(I_vld.T)]
+        ref = float(np.linalg.norm(vals - y_vld) / np.linalg.norm(y_vld))
+        ctx.check(abs(infq["e_vld"] - ref) <= float(np.linalg.norm(tv) / np.linalg.norm(y_vld)) * 4 + 1e-12 * ref,
+                  "info['e_vld'] is not the validation error of the returned tensor (rank-1 start, one sweep)", got=infq["e_vld"], ref=ref)
 
     # (b) cache transparency
     if case["cache"]:
